@@ -210,6 +210,20 @@ def worker(ctx):
         if case_id % 4 == 1:
             gen.add_same_name_shapes(root, rng, ext_ok=cfg.extensible)
             res.count("cases_with_same_short_name_shapes")
+        if case_id % 8 == 5:
+            # field names whose PascalCase form is the name of a generated Go method (`size` -> Size()): the Go file is not a valid package
+            # then (that is C10's premise, not judged here), but every accessor must still name the struct field that carries this schema
+            # field - whatever spelling the struct gives it (the JSON tag identifies it)
+            for mm in [mm for g_ in root.all_files() for mm in messages_of(g_)]:
+                names = {f.name for f in mm.fields}
+                msg_fields = [f for f in mm.fields if isinstance(innermost(f.type)[1], Ref) and isinstance(innermost(f.type)[1].target, Message)]
+                if msg_fields and "size" not in names and rng.random() < 0.8:
+                    rng.choice(msg_fields).name = "size"
+                    res.count("fields_named_like_a_go_method")
+                others = [f for f in mm.fields if f.name != "size"]
+                if others and "string" not in names and rng.random() < 0.4:
+                    rng.choice(others).name = "string"
+                    res.count("fields_named_like_a_go_method")
         d = ctx.casedir(case_id)
         wit = {"case": case_id, "shard": ctx.shard}
         try:
@@ -258,6 +272,9 @@ def worker(ctx):
             break
 
 
+GO_METHOD_LIKE = {"size", "string"}
+
+
 def judge_message(ctx, go, gf, exp, g, m, sizes, size_m, mods, wit):
     res = ctx.res
     tn = go_type_name(m)
@@ -268,7 +285,9 @@ def judge_message(ctx, go, gf, exp, g, m, sizes, size_m, mods, wit):
         res.violation("go-struct-missing", f"{m.name}: no struct {tn} in the Go output", w)
         return
     # ---- struct -------------------------------------------------------------------
-    want_fields = [(go_field(f.name), exp.go_type(f.type), f.name) for f in m.sorted_fields]
+    by_tag = {f.tag: f.name for f in gt.fields}
+    go_name = lambda f: by_tag.get(f.name, go_field(f.name)) if f.name in GO_METHOD_LIKE else go_field(f.name)
+    want_fields = [(go_name(f), exp.go_type(f.type), f.name) for f in m.sorted_fields]
     got_fields = [(f.name, f.type_str, f.tag) for f in gt.fields]
     ok = len(want_fields) == len(got_fields) and all(a[0] == b[0] and norm(a[1]) == norm(b[1]) and a[2] == b[2] for a, b in zip(want_fields, got_fields))
     res.count("struct_fields_checked", len(want_fields))
@@ -306,7 +325,7 @@ def judge_message(ctx, go, gf, exp, g, m, sizes, size_m, mods, wit):
     want = {"BpSetByte": [], "BpGetByte": [], "BpProcessInt": [], "BpGetAccessor": []}
     for f in m.sorted_fields:
         depth, inner, alias = innermost(f.type)
-        base = {"number": f.number, "field": go_field(f.name), "depth": depth, "indices": list(range(depth))}
+        base = {"number": f.number, "field": go_name(f), "depth": depth, "indices": list(range(depth))}
         tt = inner.target if isinstance(inner, Ref) else inner
         if isinstance(tt, Message):
             want["BpGetAccessor"].append({**base, "addr_of": True})
